@@ -79,6 +79,7 @@ static int nfail;
 static int spurious_deadlock_rescues;
 static uint64_t nwrites, writes_at_rescue = (uint64_t)-1;
 static int log_all;
+static void (*event_fn)(int, const void *, const void *, long);
 static int autoname_units; /* name work units T<n> at their creation event, drop the name at free */
 
 #define LOCK() __real_pthread_mutex_lock(&G)
@@ -402,6 +403,7 @@ static int wake_some(int kind, const void *obj, int n)
 /* ------------------------------------------------------------------- API */
 void vs_set_unit_fn(const void *(*fn)(void)) { unit_fn = fn; }
 void vs_autoname_units(int on) { autoname_units = on; }
+void vs_set_event_fn(void (*fn)(int, const void *, const void *, long)) { event_fn = fn; }
 double vs_now(void) { return vclock; }
 uint64_t vs_rand(void) { return xs(&rng_u); }
 uint64_t vs_steps(void) { return steps; }
@@ -610,6 +612,8 @@ void abt_verif_event(int kind, const void *p1, const void *p2, long v)
     if (!on || !me)
         return;
     vthread *self = me;
+    if (event_fn)
+        event_fn(kind, p1, p2, v);
     if (autoname_units && logf && (kind == 1 || kind == 4) && !lookup(p1)) {
         static int tn;
         vs_name(p1, 128, "T%d", tn++);
